@@ -790,6 +790,1022 @@ theorem cstrcmp_guest (u : Bytes) : cstrcmp u STR_GUEST ≠ 0 ↔ cstr u ≠ STR
   have : cstr STR_GUEST = STR_GUEST := by decide
   rw [this]
 
+/-! ### every operation refines the abstract table -/
+
+theorem uidValid_zero : uidValid 0 = false := by decide
+
+theorem userLogin_ok (h : R C pws s t) {i : Nat} {r : Rec C} (hi : s.recs[i]? = some r) (hu : inUse r)
+    (hroom : foldId r.id ∈ t.sess ∨ t.sess.length < USHM) (rest : Nat) :
+    (userLogin s (i + 1) rest).2 = .none ∧
+      R C pws (userLogin s (i + 1) rest).1 { t with sess := sessAdd t.sess (foldId r.id) } := by
+  obtain ⟨sess', he, hR⟩ := h.enter hi hu hroom
+  obtain ⟨a, ha, h6, h7, h8⟩ := h.sound i r hi hu
+  unfold userLogin
+  rw [he]
+  simp only [recOf_succ, hi]
+  refine ⟨by first | rfl | trivial, ?_⟩
+  have hi' : ({ s with sess := sess' } : State C).recs[i]? = some r := hi
+  have := hR.update (r' := { r with rest := rest }) hi' hu rfl (pw' := a.pw) h8
+  have hacc : updAcc t.acc (foldId r.id) ⟨cstr r.id, a.pw, r.email⟩ = t.acc := by
+    apply updAcc_self
+    rw [ha, ← h6, ← h7]
+  simp only [hacc] at this
+  exact this
+
+theorem login_refines (rs : List Bytes) (h : R C pws s t) (id pw : Bytes) (rest : Nat)
+    (hp : pw ∈ pws) (hroom : Room t (.login id pw rest)) :
+    R C pws (login s id pw rest).1 (specStep rs t (.login id pw rest)).1 ∧
+      AnsAgree (.login id pw rest) (login s id pw rest).2 (specStep rs t (.login id pw rest)).2 := by
+  unfold login specStep
+  simp only []
+  by_cases hw : WellFormed (cstr id)
+  · obtain ⟨hv, hh, hf⟩ := copy_facts hw
+    simp only [hv, hw, Bool.not_true, Bool.false_eq_true, if_false, not_true_eq_false, hh]
+    cases ha : t.acc (foldId id) with
+    | none =>
+      have := h.lookup_missing (copyInto IDSZ id) (by rw [hf]; exact ha)
+      simp only [this, uidValid_zero, Bool.not_false, if_true]
+      exact ⟨h, rfl, rfl⟩
+    | some a =>
+      obtain ⟨i, r, h1, h2, h3, h4, h5, h6, h7, h8⟩ := h.lookup_found (copyInto IDSZ id) a (by rw [hf]; exact ha) hh
+      have hval := (uidValid_succ i).2 h2
+      simp only [h1, hval, recOf_succ, h3, Bool.not_true, Bool.false_eq_true, if_false]
+      have hc : (cstrcmp r.id STR_GUEST ≠ 0 ∧ (!C.check r.hash pw) = true) ↔ (a.id ≠ STR_GUEST ∧ ¬ pwOk a pw) := by
+        rw [cstrcmp_guest, h6, ← hashRel_check h8 hp]; simp
+      by_cases hb : a.id ≠ STR_GUEST ∧ ¬ pwOk a pw
+      · rw [if_pos (hc.2 hb), if_pos hb]
+        exact ⟨h, rfl, rfl⟩
+      · rw [if_neg (fun x => hb (hc.1 x)), if_neg hb]
+        have hk : foldId r.id = foldId id := by rw [h5, hf]
+        obtain ⟨e1, e2⟩ := userLogin_ok h h3 h4 (by rw [hk]; exact hroom) rest
+        rw [if_neg (by rw [e1]; simp)]
+        refine ⟨by rw [← hk]; exact e2, rfl, ?_⟩
+        show [toUUserID r.id] = [a.id]
+        rw [toUUserID_valid (h.valid i r h3 h4), h6]
+  · have hv := copy_invalid hw
+    simp only [hv, hw, Bool.not_false, if_true, not_false_eq_true]
+    exact ⟨h, rfl, rfl⟩
+theorem checkPasswd_refines (rs : List Bytes) (h : R C pws s t) (id pw : Bytes) (hp : pw ∈ pws) :
+    R C pws (checkPasswd s id pw).1 (specStep rs t (.checkPasswd id pw)).1 ∧
+      AnsAgree (.checkPasswd id pw) (checkPasswd s id pw).2 (specStep rs t (.checkPasswd id pw)).2 := by
+  unfold checkPasswd specStep
+  simp only []
+  by_cases hw : WellFormed (cstr id)
+  · obtain ⟨hv, hh, hf⟩ := copy_facts hw
+    simp only [hv, hw, Bool.not_true, Bool.false_eq_true, if_false, not_true_eq_false, hh]
+    cases ha : t.acc (foldId id) with
+    | none =>
+      have := h.lookup_missing (copyInto IDSZ id) (by rw [hf]; exact ha)
+      simp only [this, uidValid_zero, Bool.not_false, if_true]
+      exact ⟨h, rfl, rfl⟩
+    | some a =>
+      obtain ⟨i, r, h1, h2, h3, h4, h5, h6, h7, h8⟩ := h.lookup_found (copyInto IDSZ id) a (by rw [hf]; exact ha) hh
+      have hval := (uidValid_succ i).2 h2
+      simp only [h1, hval, recOf_succ, h3, Bool.not_true, Bool.false_eq_true, if_false]
+      by_cases hb : pwOk a pw
+      · have := (hashRel_check h8 hp).2 hb
+        simp only [this, Bool.not_true, Bool.false_eq_true, if_false, hb, if_true]
+        exact ⟨h, rfl, rfl⟩
+      · have : C.check r.hash pw = false := by
+          cases hx : C.check r.hash pw with
+          | false => rfl
+          | true => exact absurd ((hashRel_check h8 hp).1 hx) hb
+        simp only [this, Bool.not_false, if_true, hb, if_false]
+        exact ⟨h, rfl, rfl⟩
+  · have hv := copy_invalid hw
+    simp only [hv, hw, Bool.not_false, if_true, not_false_eq_true]
+    exact ⟨h, rfl, rfl⟩
+
+theorem changePasswd_refines (L : Lawful C) (S : Sep C pws) (rs : List Bytes) (h : R C pws s t) (id old new : Bytes)
+    (salt : Nat) (hp : old ∈ pws) (hn : new ∈ pws) :
+    R C pws (changePasswd s id old new salt).1 (specStep rs t (.changePasswd id old new salt)).1 ∧
+      AnsAgree (.changePasswd id old new salt) (changePasswd s id old new salt).2
+        (specStep rs t (.changePasswd id old new salt)).2 := by
+  unfold changePasswd specStep
+  simp only []
+  by_cases hw : WellFormed (cstr id)
+  · obtain ⟨hv, hh, hf⟩ := copy_facts hw
+    simp only [hv, hw, Bool.not_true, Bool.false_eq_true, if_false, not_true_eq_false, hh]
+    cases ha : t.acc (foldId id) with
+    | none =>
+      have := h.lookup_missing (copyInto IDSZ id) (by rw [hf]; exact ha)
+      simp only [this, uidValid_zero, Bool.not_false, if_true]
+      exact ⟨h, rfl, rfl⟩
+    | some a =>
+      obtain ⟨i, r, h1, h2, h3, h4, h5, h6, h7, h8⟩ := h.lookup_found (copyInto IDSZ id) a (by rw [hf]; exact ha) hh
+      have hval := (uidValid_succ i).2 h2
+      simp only [h1, hval, recOf_succ, h3, Bool.not_true, Bool.false_eq_true, if_false]
+      by_cases hb : pwOk a old
+      · have := (hashRel_check h8 hp).2 hb
+        simp only [this, Bool.not_true, Bool.false_eq_true, if_false, hb, not_true_eq_false]
+        have hk : foldId r.id = foldId id := by rw [h5, hf]
+        have hR := h.update (r' := { r with hash := genPasswd C salt new }) h3 h4 rfl (hashRel_gen L S salt new hn)
+        refine ⟨?_, rfl, rfl⟩
+        have e : ({ a with pw := pwOf new } : Account) = ⟨cstr r.id, pwOf new, r.email⟩ := by
+          rw [← h6, ← h7]
+        rw [e, ← hk]; exact hR
+      · have : C.check r.hash old = false := by
+          cases hx : C.check r.hash old with
+          | false => rfl
+          | true => exact absurd ((hashRel_check h8 hp).1 hx) hb
+        simp only [this, Bool.not_false, if_true, hb, not_false_eq_true]
+        exact ⟨h, rfl, rfl⟩
+  · have hv := copy_invalid hw
+    simp only [hv, hw, Bool.not_false, if_true, not_false_eq_true]
+    exact ⟨h, rfl, rfl⟩
+
+theorem changeEmail_refines (rs : List Bytes) (h : R C pws s t) (id email : Bytes) :
+    R C pws (changeEmail s id email).1 (specStep rs t (.changeEmail id email)).1 ∧
+      AnsAgree (.changeEmail id email) (changeEmail s id email).2 (specStep rs t (.changeEmail id email)).2 := by
+  unfold changeEmail specStep
+  simp only []
+  by_cases hw : WellFormed (cstr id)
+  · obtain ⟨hv, hh, hf⟩ := copy_facts hw
+    simp only [hv, hw, Bool.not_true, Bool.false_eq_true, if_false, not_true_eq_false, hh]
+    cases ha : t.acc (foldId id) with
+    | none =>
+      have := h.lookup_missing (copyInto IDSZ id) (by rw [hf]; exact ha)
+      simp only [this, uidValid_zero, Bool.not_false, if_true]
+      exact ⟨h, rfl, rfl⟩
+    | some a =>
+      obtain ⟨i, r, h1, h2, h3, h4, h5, h6, h7, h8⟩ := h.lookup_found (copyInto IDSZ id) a (by rw [hf]; exact ha) hh
+      have hval := (uidValid_succ i).2 h2
+      simp only [h1, hval, recOf_succ, h3, Bool.not_true, Bool.false_eq_true, if_false]
+      have hk : foldId r.id = foldId id := by rw [h5, hf]
+      have hR := h.update (r' := { r with email := copyInto EMAILSZ email }) h3 h4 rfl (pw' := a.pw) h8
+      refine ⟨?_, rfl, rfl⟩
+      have e : ({ a with email := copyInto EMAILSZ email } : Account) = ⟨cstr r.id, a.pw, copyInto EMAILSZ email⟩ := by
+        rw [← h6]
+      rw [e, ← hk]; exact hR
+  · have hv := copy_invalid hw
+    simp only [hv, hw, Bool.not_false, if_true, not_false_eq_true]
+    exact ⟨h, rfl, rfl⟩
+
+theorem exists_refines (rs : List Bytes) (h : R C pws s t) (id : Bytes) :
+    R C pws (checkExists s id).1 (specStep rs t (.exists_ id)).1 ∧
+      AnsAgree (.exists_ id) (checkExists s id).2 (specStep rs t (.exists_ id)).2 := by
+  unfold checkExists specStep
+  simp only []
+  by_cases hw : WellFormed (cstr id)
+  · obtain ⟨hv, hh, hf⟩ := copy_facts hw
+    simp only [hv, hw, Bool.not_true, Bool.false_eq_true, if_false, not_true_eq_false]
+    cases ha : t.acc (foldId id) with
+    | none =>
+      have := h.lookup_missing (copyInto IDSZ id) (by rw [hf]; exact ha)
+      simp only [this, uidValid_zero, Bool.not_false, if_true]
+      exact ⟨h, rfl, rfl⟩
+    | some a =>
+      obtain ⟨i, r, h1, h2, h3, h4, h5, h6, h7, h8⟩ := h.lookup_found (copyInto IDSZ id) a (by rw [hf]; exact ha) hh
+      have hval := (uidValid_succ i).2 h2
+      simp only [h1, hval, Bool.not_true, Bool.false_eq_true, if_false]
+      exact ⟨h, rfl, rfl⟩
+  · have hv := copy_invalid hw
+    simp only [hv, hw, Bool.not_false, if_true, not_false_eq_true]
+    exact ⟨h, rfl, rfl⟩
+
+theorem R.key_facts (h : R C pws s t) {k : Bytes} {a : Account} (hk : t.acc k = some a) : k ≠ [] ∧ k.length ≤ 12 := by
+  obtain ⟨i, r, hr, hu, hf⟩ := h.complete k a hk
+  have hw := (isValidId_iff r.id).1 (h.valid i r hr hu)
+  rw [← hf]
+  exact ⟨(inUse_iff_fold r).1 hu, by rw [foldId_length]; exact hw.2.1⟩
+
+theorem getUser_refines (rs : List Bytes) (h : R C pws s t) (id : Bytes) :
+    R C pws (getUser s id).1 (specStep rs t (.getUser id)).1 ∧
+      AnsAgree (.getUser id) (getUser s id).2 (specStep rs t (.getUser id)).2 := by
+  unfold getUser specStep
+  simp only []
+  -- the key the array is looked up under
+  have hkey : t.acc (foldId (copyInto IDSZ id)) = t.acc (foldId id) := by
+    by_cases hl : (cstr id).length ≤ 12
+    · rw [foldId_copyInto, List.take_of_length_le (by rw [foldId_length, consts.2.1]; omega)]
+    · have h1 : t.acc (foldId id) = none := by
+        cases hx : t.acc (foldId id) with
+        | none => rfl
+        | some a => have := (h.key_facts hx).2; rw [foldId_length] at this; omega
+      have h2 : t.acc (foldId (copyInto IDSZ id)) = none := by
+        cases hx : t.acc (foldId (copyInto IDSZ id)) with
+        | none => rfl
+        | some a =>
+          have := (h.key_facts hx).2
+          rw [foldId_copyInto, List.length_take, foldId_length, consts.2.1] at this; omega
+      rw [h1, h2]
+  cases ha : t.acc (foldId id) with
+  | none =>
+    have := h.lookup_missing (copyInto IDSZ id) (by rw [hkey]; exact ha)
+    simp only [this, uidValid_zero, Bool.not_false, if_true]
+    exact ⟨h, rfl, fun _ => rfl, fun x => by cases x⟩
+  | some a =>
+    have hne : (copyInto IDSZ id).headD 0 ≠ 0 := by
+      intro e
+      have := (h.key_facts (hkey.trans ha)).1
+      exact this ((foldId_nil_iff _).2 e)
+    obtain ⟨i, r, h1, h2, h3, h4, h5, h6, h7, h8⟩ := h.lookup_found (copyInto IDSZ id) a (hkey.trans ha) hne
+    have hval := (uidValid_succ i).2 h2
+    simp only [h1, hval, recOf_succ, h3, Bool.not_true, Bool.false_eq_true, if_false]
+    exact ⟨h, rfl, fun x => absurd rfl x, fun _ => ⟨r.id, r.email, rfl, by rw [h6, h7]⟩⟩
+
+theorem register_refused (rs : List Bytes) (s : State C) (id pw email : Bytes) (salt rest : Nat)
+    (hg : ¬ (WellFormed id ∧ ¬ Reserved rs id)) :
+    register rs s id pw email salt rest = (s, ⟨.invalidUserID, [[]]⟩) := by
+  unfold register
+  simp only []
+  cases h1 : id.contains 0 with
+  | true => simp
+  | false =>
+    cases h2 : isBadUserID (copyInto IDSZ id) with
+    | true => simp
+    | false =>
+      cases h3 : isReservedUserID rs (copyInto IDSZ id) with
+      | true => simp
+      | false => exact absurd ((gate_iff rs id).1 ⟨h1, h2, h3⟩) hg
+
+theorem register_refines (L : Lawful C) (S : Sep C pws) (rs : List Bytes) (h : R C pws s t) (id pw email : Bytes)
+    (salt rest : Nat) (hp : pw ∈ pws) (hroom : Room t (.register id pw email salt rest)) :
+    R C pws (register rs s id pw email salt rest).1 (specStep rs t (.register id pw email salt rest)).1 ∧
+      AnsAgree (.register id pw email salt rest) (register rs s id pw email salt rest).2
+        (specStep rs t (.register id pw email salt rest)).2 := by
+  by_cases hg : WellFormed id ∧ ¬ Reserved rs id
+  · obtain ⟨hw, hres⟩ := hg
+    obtain ⟨g1, g2, g3⟩ := (gate_iff rs id).2 ⟨hw, hres⟩
+    have hnz := wellFormed_no_zero hw
+    have hc : cstr id = id := cstr_of_no_zero id hnz
+    have hw' : WellFormed (cstr id) := by rw [hc]; exact hw
+    obtain ⟨hv, hh, hf⟩ := copy_facts hw'
+    have hfold : foldId (copyInto IDSZ id) = id.map tolower := by rw [hf, foldId, hc]
+    have hcs : cstr (copyInto IDSZ id) = id := by rw [cstr_copy_of_wf hw', hc]
+    have hds : doSearchUserRaw s (copyInto IDSZ id) = searchUserRaw s (copyInto IDSZ id) := by
+      unfold searchUserRaw; rw [if_neg hh]
+    let n : Rec C := { id := copyInto IDSZ id, hash := genPasswd C salt pw, email := copyInto EMAILSZ email, rest := rest }
+    unfold register specStep
+    simp only [g1, g2, g3, Bool.false_eq_true, if_false, hw, hres, not_true_eq_false]
+    cases ha : t.acc (id.map tolower) with
+    | some a =>
+      obtain ⟨i, r, h1, _⟩ := h.lookup_found (copyInto IDSZ id) a (by rw [hfold]; exact ha) hh
+      have hs : setupNewUser s n = (s, .userExists) := by
+        unfold setupNewUser; simp only [n, hds, h1]; simp
+      simp only [n] at hs
+      simp only [hs]
+      simp
+      exact ⟨h, rfl, rfl⟩
+    | none =>
+      have h0 := h.lookup_missing (copyInto IDSZ id) (by rw [hfold]; exact ha)
+      by_cases hfree : t.free = 0
+      · have := h.free_search.1 hfree
+        have hs : setupNewUser s n = (s, .invalidUID) := by
+          unfold setupNewUser; simp only [n, hds, h0, this, uidValid_zero]; simp
+        simp only [n] at hs
+        simp only [hs, hfree]
+        simp
+        exact ⟨h, rfl, rfl⟩
+      · obtain ⟨i, e, f1, f2, f3, f4⟩ := h.free_search.2 hfree
+        have hval := (uidValid_succ i).2 f2
+        have hs : setupNewUser s n = (setRec s (i + 1) n, .none) := by
+          unfold setupNewUser; simp only [n, hds, h0, f1, hval]; simp
+        -- the record that is written
+        have hnew : ∀ (k : Nat) (r : Rec C), s.recs[k]? = some r → foldId (copyInto IDSZ id) ≠ foldId r.id := by
+          have : searchFrom s.recs (copyInto IDSZ id) 0 = 0 := by
+            have := h0; unfold searchUserRaw doSearchUserRaw at this; rwa [if_neg hh] at this
+          exact (searchFrom_zero _ _ _).1 this
+        have hR1 := h.insert (n := n) f3 f4 hv hh hnew (hashRel_gen L S salt pw hp)
+        have hacc : (updAcc t.acc (foldId n.id) ⟨cstr n.id, pwOf pw, n.email⟩) (foldId (copyInto IDSZ id)) =
+            some ⟨cstr n.id, pwOf pw, n.email⟩ := by simp [updAcc, n]
+        obtain ⟨i', r', k1, k2, k3, k4, k5, _⟩ := hR1.lookup_found (copyInto IDSZ id) _ hacc hh
+        have hin : (setRec s (i + 1) n).recs[i]? = some n := by rw [setRec_recs]; exact set_self _ _ _ _ f3
+        have hii : i' = i := hR1.uniq i' i r' n k3 hin k4 k5
+        subst hii
+        rw [hin] at k3; cases k3
+        have hroom' : foldId n.id ∈ t.sess ∨ t.sess.length < USHM := Or.inr hroom
+        obtain ⟨e1, e2⟩ := userLogin_ok hR1 hin hh hroom' rest
+        have hs' := hs
+        simp only [n] at hs' k1 hin e1
+        simp only [hs', k1, hval, recOf_succ, hin, e1, hfree]
+        simp
+        refine ⟨?_, rfl, ?_⟩
+        · have : foldId n.id = id.map tolower := hfold
+          have hcn : cstr n.id = id := hcs
+          rw [this, hcn] at e2
+          exact e2
+        · show [toUUserID n.id] = [id]
+          rw [toUUserID_valid hv, hcs]
+  · rw [register_refused rs s id pw email salt rest hg]
+    unfold specStep
+    simp only []
+    by_cases hw : WellFormed id
+    · have hr : Reserved rs id := Classical.not_not.1 (fun x => hg ⟨hw, x⟩)
+      simp only [hw, hr, not_true_eq_false, if_false, if_true]
+      exact ⟨h, rfl, rfl⟩
+    · simp only [hw, not_false_eq_true, if_true]
+      exact ⟨h, rfl, rfl⟩
+
+theorem step_refines (L : Lawful C) (S : Sep C pws) (rs : List Bytes) (h : R C pws s t) (op : Op)
+    (hp : OpPws pws op) (hroom : Room t op) :
+    R C pws (step rs s op).1 (specStep rs t op).1 ∧ AnsAgree op (step rs s op).2 (specStep rs t op).2 := by
+  cases op with
+  | register id pw email salt rest => exact register_refines L S rs h id pw email salt rest hp hroom
+  | login id pw rest => exact login_refines rs h id pw rest hp hroom
+  | checkPasswd id pw => exact checkPasswd_refines rs h id pw hp
+  | changePasswd id old new salt => exact changePasswd_refines L S rs h id old new salt hp.1 hp.2
+  | changeEmail id email => exact changeEmail_refines rs h id email
+  | exists_ id => exact exists_refines rs h id
+  | getUser id => exact getUser_refines rs h id
+
+/-- answers agree, position by position. -/
+def AnsAgreeAll : List Op → List Ans → List SpecAns → Prop
+  | [], [], [] => True
+  | o :: os, a :: as, b :: bs => AnsAgree o a b ∧ AnsAgreeAll os as bs
+  | _, _, _ => False
+
+theorem run_refines (L : Lawful C) (S : Sep C pws) (rs : List Bytes) (ops : List Op) :
+    ∀ (s : State C) (t : Table), R C pws s t → (∀ o ∈ ops, OpPws pws o) → RoomRun rs t ops →
+      R C pws (run rs s ops) (specRun rs t ops) ∧ AnsAgreeAll ops (outputs rs s ops) (specOutputs rs t ops) := by
+  induction ops with
+  | nil => intro s t h _ _; exact ⟨h, trivial⟩
+  | cons o os ih =>
+    intro s t h hp hroom
+    obtain ⟨h1, h2⟩ := step_refines L S rs h o (hp o (by simp)) hroom.1
+    obtain ⟨h3, h4⟩ := ih _ _ h1 (fun o' ho' => hp o' (by simp [ho'])) hroom.2
+    exact ⟨h3, h2, h4⟩
+
+/-! ### frame: which record an operation may touch -/
+
+/-- the uid of the one record the operation may write: the first free slot for a registration, the slot the index
+resolves the submitted id to for everything else. -/
+def target (s : State C) : Op → Nat
+  | .register .. => doSearchUserRaw s (List.replicate IDSZ 0)
+  | .login id .. => searchUserRaw s (copyInto IDSZ id)
+  | .checkPasswd id _ => searchUserRaw s (copyInto IDSZ id)
+  | .changePasswd id .. => searchUserRaw s (copyInto IDSZ id)
+  | .changeEmail id _ => searchUserRaw s (copyInto IDSZ id)
+  | .exists_ id => searchUserRaw s (copyInto IDSZ id)
+  | .getUser id => searchUserRaw s (copyInto IDSZ id)
+
+theorem setRec_other (s : State C) (uid : Nat) (r : Rec C) (j : Nat) (h : j + 1 ≠ uid) (h1 : 1 ≤ uid) :
+    (setRec s uid r).recs[j]? = s.recs[j]? := by
+  unfold setRec
+  simp only []
+  rw [List.getElem?_set_ne (by omega)]
+
+theorem userLogin_other (s : State C) (uid rest : Nat) (j : Nat) (h : j + 1 ≠ uid) (h1 : 1 ≤ uid) :
+    (userLogin s uid rest).1.recs[j]? = s.recs[j]? := by
+  unfold userLogin
+  cases utmpEnter s.sess uid with
+  | none => rfl
+  | some sess' =>
+    simp only []
+    cases recOf s uid with
+    | none => rfl
+    | some u => exact setRec_other _ _ _ _ h h1
+
+theorem uidValid_pos {u : Nat} (h : uidValid u = true) : 1 ≤ u := by
+  simp [uidValid] at h; exact h.1
+
+theorem setupNewUser_other (s : State C) (n : Rec C) (j : Nat) (h : j + 1 ≠ doSearchUserRaw s (List.replicate IDSZ 0)) :
+    (setupNewUser s n).1.recs[j]? = s.recs[j]? := by
+  unfold setupNewUser
+  simp only []
+  split
+  · rfl
+  · split
+    · rfl
+    · rename_i hv
+      exact setRec_other _ _ _ _ h (uidValid_pos (by simpa using hv))
+
+theorem searchFrom_set_new (rs : List (Rec C)) (i k : Nat) (e n : Rec C) (q : Bytes)
+    (h0 : searchFrom rs q k = 0) (hi : rs[i]? = some e) (hq : cstrcasecmp q n.id = 0) :
+    searchFrom (rs.set i n) q k = k + i + 1 := by
+  induction rs generalizing i k with
+  | nil => simp at hi
+  | cons x xs ih =>
+    unfold searchFrom at h0
+    by_cases hx : cstrcasecmp q x.id = 0
+    · rw [if_pos hx] at h0; omega
+    · rw [if_neg hx] at h0
+      cases i with
+      | zero => simp only [List.set_cons_zero]; unfold searchFrom; rw [if_pos hq]
+      | succ i =>
+        simp only [List.set_cons_succ]
+        unfold searchFrom
+        rw [if_neg hx, ih i (k + 1) h0 (by simpa using hi)]; omega
+
+theorem cstrcasecmp_self (u : Bytes) : cstrcasecmp u u = 0 := (cstrcasecmp_zero_iff u u).2 rfl
+
+/-- every operation, in every state: all records except the target's are what they were. -/
+theorem frame_all (rs : List Bytes) (s : State C) (op : Op) (j : Nat) (h : j + 1 ≠ target s op) :
+    (step rs s op).1.recs[j]? = s.recs[j]? := by
+  cases op with
+  | register id pw email salt rest =>
+    simp only [step, target] at h ⊢
+    unfold register
+    simp only []
+    split
+    · rfl
+    · split
+      · rfl
+      · split
+        · rfl
+        · -- the gates are passed
+          rename_i g1 hb g3
+          generalize hn : ({ id := copyInto IDSZ id, hash := genPasswd C salt pw, email := copyInto EMAILSZ email, rest := rest } : Rec C) = n
+          have hs1 := setupNewUser_other s n j h
+          split
+          · exact hs1
+          · rename_i he
+            have he' : (setupNewUser s n).2 = .none := by simpa using he
+            -- the setup wrote slot `target`; the login that follows addresses the same uid
+            have hshape : (setupNewUser s n) =
+                (setRec s (doSearchUserRaw s (List.replicate IDSZ 0)) n, .none) ∧
+                doSearchUserRaw s n.id = 0 ∧ uidValid (doSearchUserRaw s (List.replicate IDSZ 0)) = true := by
+              by_cases c1 : doSearchUserRaw s n.id = 0
+              · by_cases c3 : uidValid (doSearchUserRaw s (List.replicate IDSZ 0)) = true
+                · refine ⟨?_, c1, c3⟩
+                  unfold setupNewUser; simp [c1, c3]
+                · exfalso
+                  have : setupNewUser s n = (s, .invalidUID) := by unfold setupNewUser; simp [c1, c3]
+                  rw [this] at he'; cases he'
+              · exfalso
+                have : setupNewUser s n = (s, .userExists) := by unfold setupNewUser; simp [c1]
+                rw [this] at he'; cases he'
+            obtain ⟨hset, hz, hv⟩ := hshape
+            have hpos := uidValid_pos hv
+            have hlt : doSearchUserRaw s (List.replicate IDSZ 0) - 1 < s.recs.length := by
+              -- a found slot is inside the list
+              have hnz : searchFrom s.recs (List.replicate IDSZ 0) 0 ≠ 0 := by
+                unfold doSearchUserRaw at hpos; omega
+              obtain ⟨k, r, e1, e2, _⟩ := searchFrom_pos _ _ _ hnz
+              unfold doSearchUserRaw
+              rw [e1]
+              have := (List.getElem?_eq_some_iff.1 e2).1
+              omega
+            have hid : n.id = copyInto IDSZ id := by rw [← hn]
+            have hhead : (copyInto IDSZ id).headD 0 ≠ 0 := by
+              have hv' : isValidId (copyInto IDSZ id) = true := by
+                cases hx : isValidId (copyInto IDSZ id) with
+                | true => rfl
+                | false => exfalso; apply hb; unfold isBadUserID; simp [hx]
+              have hw := (isValidId_iff _).1 hv'
+              intro e
+              exact wellFormed_ne_nil hw ((cstr_headD _).1 e)
+            have hsearch : searchUserRaw (setupNewUser s n).1 (copyInto IDSZ id) =
+                doSearchUserRaw s (List.replicate IDSZ 0) := by
+              rw [hset]
+              unfold searchUserRaw doSearchUserRaw setRec
+              rw [if_neg hhead]
+              simp only []
+              obtain ⟨e, he⟩ : ∃ e, s.recs[doSearchUserRaw s (List.replicate IDSZ 0) - 1]? = some e :=
+                ⟨_, List.getElem?_eq_getElem hlt⟩
+              have := searchFrom_set_new s.recs _ 0 e n (copyInto IDSZ id)
+                (by unfold doSearchUserRaw at hz; rw [hid] at hz; exact hz) he (by rw [hid]; exact cstrcasecmp_self _)
+              unfold doSearchUserRaw at this hpos
+              rw [this]; omega
+            rw [hsearch, hv]
+            simp only [Bool.not_true, Bool.false_eq_true, if_false]
+            cases recOf (setupNewUser s n).1 (doSearchUserRaw s (List.replicate IDSZ 0)) with
+            | none => exact hs1
+            | some user =>
+              simp only []
+              have hl := userLogin_other (setupNewUser s n).1 (doSearchUserRaw s (List.replicate IDSZ 0)) rest j h hpos
+              split
+              · rw [hl]; exact hs1
+              · rw [hl]; exact hs1
+  | login id pw rest =>
+    simp only [step, target] at h ⊢
+    unfold login
+    simp only []
+    split
+    · rfl
+    · split
+      · rfl
+      · split
+        · rfl
+        · rename_i hv
+          have hpos := uidValid_pos (by simpa using hv)
+          cases recOf s (searchUserRaw s (copyInto IDSZ id)) with
+          | none => rfl
+          | some user =>
+            simp only []
+            have hl := userLogin_other s _ rest j h hpos
+            split
+            · rfl
+            · split
+              · exact hl
+              · exact hl
+  | checkPasswd id pw =>
+    simp only [step]
+    unfold checkPasswd
+    simp only []
+    repeat' split
+    all_goals rfl
+  | changePasswd id old new salt =>
+    simp only [step, target] at h ⊢
+    unfold changePasswd
+    simp only []
+    split
+    · rfl
+    · split
+      · rfl
+      · split
+        · rfl
+        · rename_i hv
+          have hpos := uidValid_pos (by simpa using hv)
+          cases recOf s (searchUserRaw s (copyInto IDSZ id)) with
+          | none => rfl
+          | some user =>
+            simp only []
+            split
+            · rfl
+            · exact setRec_other _ _ _ _ h hpos
+  | changeEmail id email =>
+    simp only [step, target] at h ⊢
+    unfold changeEmail
+    simp only []
+    split
+    · rfl
+    · split
+      · rfl
+      · split
+        · rfl
+        · rename_i hv
+          have hpos := uidValid_pos (by simpa using hv)
+          cases recOf s (searchUserRaw s (copyInto IDSZ id)) with
+          | none => rfl
+          | some user => exact setRec_other _ _ _ _ h hpos
+  | exists_ id =>
+    simp only [step]
+    unfold checkExists
+    simp only []
+    repeat' split
+    all_goals rfl
+  | getUser id =>
+    simp only [step]
+    unfold getUser
+    simp only []
+    repeat' split
+    all_goals rfl
+
+theorem setupNewUser_shape (s : State C) (n : Rec C) :
+    ((setupNewUser s n).2 ≠ .none ∧ (setupNewUser s n).1 = s) ∨
+    (setupNewUser s n = (setRec s (doSearchUserRaw s (List.replicate IDSZ 0)) n, .none) ∧
+      doSearchUserRaw s n.id = 0 ∧ uidValid (doSearchUserRaw s (List.replicate IDSZ 0)) = true) := by
+  by_cases c1 : doSearchUserRaw s n.id = 0
+  · by_cases c3 : uidValid (doSearchUserRaw s (List.replicate IDSZ 0)) = true
+    · right; refine ⟨?_, c1, c3⟩
+      unfold setupNewUser; simp [c1, c3]
+    · left
+      have : setupNewUser s n = (s, .invalidUID) := by unfold setupNewUser; simp [c1, c3]
+      rw [this]; exact ⟨by simp, rfl⟩
+  · left
+    have : setupNewUser s n = (s, .userExists) := by unfold setupNewUser; simp [c1]
+    rw [this]; exact ⟨by simp, rfl⟩
+
+theorem search_after_setup (s : State C) (n : Rec C) (hh : n.id.headD 0 ≠ 0) (hz : doSearchUserRaw s n.id = 0)
+    (hv : uidValid (doSearchUserRaw s (List.replicate IDSZ 0)) = true) :
+    searchUserRaw (setRec s (doSearchUserRaw s (List.replicate IDSZ 0)) n) n.id = doSearchUserRaw s (List.replicate IDSZ 0) ∧
+      recOf (setRec s (doSearchUserRaw s (List.replicate IDSZ 0)) n) (doSearchUserRaw s (List.replicate IDSZ 0)) = some n := by
+  have hpos := uidValid_pos hv
+  have hnz : searchFrom s.recs (List.replicate IDSZ 0) 0 ≠ 0 := by unfold doSearchUserRaw at hpos; omega
+  obtain ⟨k, r, e1, e2, _⟩ := searchFrom_pos _ _ _ hnz
+  have hu : doSearchUserRaw s (List.replicate IDSZ 0) = k + 1 := by unfold doSearchUserRaw; rw [e1]; omega
+  rw [hu]
+  constructor
+  · unfold searchUserRaw doSearchUserRaw
+    rw [if_neg hh, setRec_recs]
+    have := searchFrom_set_new s.recs k 0 r n n.id (by unfold doSearchUserRaw at hz; exact hz) e2 (cstrcasecmp_self _)
+    rw [this]; omega
+  · rw [recOf_succ, setRec_recs]; exact set_self _ _ _ _ e2
+
+theorem userLogin_cases (s : State C) (uid rest : Nat) :
+    (userLogin s uid rest).2 = .none ∨ ((userLogin s uid rest).2 = .newUtmp ∧ (userLogin s uid rest).1 = s) ∨
+      (userLogin s uid rest).2 = .io := by
+  unfold userLogin
+  cases utmpEnter s.sess uid with
+  | none => right; left; exact ⟨rfl, rfl⟩
+  | some sess' =>
+    simp only []
+    cases recOf s uid with
+    | none => right; right; rfl
+    | some u => left; rfl
+
+/-- an operation that returns an error leaves the whole state (file and session table) as it was — except that a
+registration can return ErrNewUtmp after having created the account (the known finding), and file errors. -/
+theorem refused_noop (rs : List Bytes) (s : State C) (op : Op) (h1 : (step rs s op).2.err ≠ .none)
+    (h2 : (step rs s op).2.err ≠ .io)
+    (h3 : ∀ id pw em sa re, op = .register id pw em sa re → (step rs s op).2.err ≠ .newUtmp) :
+    (step rs s op).1 = s := by
+  cases op with
+  | register id pw email salt rest =>
+    have h3' := h3 id pw email salt rest rfl
+    simp only [step] at h1 h2 h3' ⊢
+    unfold register at h1 h2 h3' ⊢
+    simp only [] at h1 h2 h3' ⊢
+    split
+    · rfl
+    · split
+      · rfl
+      · split
+        · rfl
+        · rename_i g1 hb g3
+          rw [if_neg g1, if_neg hb, if_neg g3] at h1 h2 h3'
+          generalize hn : ({ id := copyInto IDSZ id, hash := genPasswd C salt pw, email := copyInto EMAILSZ email, rest := rest } : Rec C) = n at h1 h2 h3' ⊢
+          have hid : n.id = copyInto IDSZ id := by rw [← hn]
+          have hhead : n.id.headD 0 ≠ 0 := by
+            rw [hid]
+            have hv' : isValidId (copyInto IDSZ id) = true := by
+              cases hx : isValidId (copyInto IDSZ id) with
+              | true => rfl
+              | false => exfalso; apply hb; unfold isBadUserID; simp [hx]
+            have hw := (isValidId_iff _).1 hv'
+            intro e
+            exact wellFormed_ne_nil hw ((cstr_headD _).1 e)
+          rcases setupNewUser_shape s n with ⟨e1, e2⟩ | ⟨e1, hz, hv⟩
+          · rw [if_pos e1]; exact e2
+          · obtain ⟨k1, k2⟩ := search_after_setup s n hhead hz hv
+            rw [← hid] at h1 h2 h3' ⊢
+            simp only [e1, k1, k2, hv, Bool.not_true, Bool.false_eq_true, if_false, ne_eq, not_true_eq_false] at h1 h2 h3' ⊢
+            rcases userLogin_cases (setRec s (doSearchUserRaw s (List.replicate IDSZ 0)) n)
+              (doSearchUserRaw s (List.replicate IDSZ 0)) rest with e | ⟨e, _⟩ | e
+            · simp [e] at h1
+            · simp [e] at h3'
+            · simp [e] at h2
+  | login id pw rest =>
+    simp only [step] at h1 h2 ⊢
+    unfold login at h1 h2 ⊢
+    simp only [] at h1 h2 ⊢
+    split
+    · rfl
+    · split
+      · rfl
+      · split
+        · rfl
+        · rename_i g1 g2 g3
+          rw [if_neg g1, if_neg g2, if_neg g3] at h1 h2
+          cases hr : recOf s (searchUserRaw s (copyInto IDSZ id)) with
+          | none => rfl
+          | some user =>
+            rw [hr] at h1 h2
+            simp only [] at h1 h2 ⊢
+            split
+            · rfl
+            · rename_i g4
+              rw [if_neg g4] at h1 h2
+              rcases userLogin_cases s (searchUserRaw s (copyInto IDSZ id)) rest with e | ⟨e, e'⟩ | e
+              · simp [e] at h1
+              · simp [e, e']
+              · simp [e] at h2
+  | checkPasswd id pw =>
+    simp only [step]
+    unfold checkPasswd
+    simp only []
+    repeat' split
+    all_goals rfl
+  | changePasswd id old new salt =>
+    simp only [step] at h1 ⊢
+    unfold changePasswd at h1 ⊢
+    simp only [] at h1 ⊢
+    split
+    · rfl
+    · split
+      · rfl
+      · split
+        · rfl
+        · rename_i g1 g2 g3
+          rw [if_neg g1, if_neg g2, if_neg g3] at h1
+          cases hr : recOf s (searchUserRaw s (copyInto IDSZ id)) with
+          | none => rfl
+          | some user =>
+            rw [hr] at h1
+            simp only [] at h1 ⊢
+            split
+            · rfl
+            · rename_i g4
+              rw [if_neg g4] at h1
+              simp at h1
+  | changeEmail id email =>
+    simp only [step] at h1 ⊢
+    unfold changeEmail at h1 ⊢
+    simp only [] at h1 ⊢
+    split
+    · rfl
+    · split
+      · rfl
+      · split
+        · rfl
+        · rename_i g1 g2 g3
+          rw [if_neg g1, if_neg g2, if_neg g3] at h1
+          cases hr : recOf s (searchUserRaw s (copyInto IDSZ id)) with
+          | none => rfl
+          | some user =>
+            rw [hr] at h1
+            simp at h1
+  | exists_ id =>
+    simp only [step]
+    unfold checkExists
+    simp only []
+    repeat' split
+    all_goals rfl
+  | getUser id =>
+    simp only [step]
+    unfold getUser
+    simp only []
+    repeat' split
+    all_goals rfl
+
+/-- which fields of a record an operation leaves alone (registration writes a whole new record). -/
+def Kept : Op → Rec C → Rec C → Prop
+  | .register .., _, _ => True
+  | .login .., r, r' => r'.id = r.id ∧ r'.hash = r.hash ∧ r'.email = r.email
+  | .changePasswd .., r, r' => r'.id = r.id ∧ r'.email = r.email ∧ r'.rest = r.rest
+  | .changeEmail .., r, r' => r'.id = r.id ∧ r'.hash = r.hash ∧ r'.rest = r.rest
+  | _, r, r' => r' = r
+
+theorem setRec_cases (s : State C) (uid : Nat) (user r' : Rec C) (hu : recOf s uid = some user)
+    (j : Nat) (r r1 : Rec C) (hr : s.recs[j]? = some r) (h1 : (setRec s uid r').recs[j]? = some r1) :
+    r1 = r ∨ (r = user ∧ r1 = r') := by
+  unfold setRec at h1
+  simp only [] at h1
+  rcases set_cases _ _ _ _ _ h1 with ⟨e1, e2⟩ | ⟨_, e⟩
+  · right
+    unfold recOf at hu
+    rw [← e1, hr] at hu
+    exact ⟨by cases hu; rfl, e2⟩
+  · left; rw [hr] at e; cases e; rfl
+
+theorem userLogin_kept (s : State C) (uid rest : Nat) (j : Nat) (r r1 : Rec C) (hr : s.recs[j]? = some r)
+    (h1 : (userLogin s uid rest).1.recs[j]? = some r1) : r1.id = r.id ∧ r1.hash = r.hash ∧ r1.email = r.email := by
+  unfold userLogin at h1
+  cases hu : utmpEnter s.sess uid with
+  | none => rw [hu] at h1; rw [hr] at h1; cases h1; exact ⟨rfl, rfl, rfl⟩
+  | some sess' =>
+    rw [hu] at h1
+    simp only [] at h1
+    cases hq : recOf s uid with
+    | none =>
+      rw [hq] at h1
+      change s.recs[j]? = some r1 at h1
+      rw [hr] at h1; cases h1; exact ⟨rfl, rfl, rfl⟩
+    | some u =>
+      have e : recOf ({ s with sess := sess' } : State C) uid = some u := hq
+      rw [hq] at h1
+      simp only [] at h1
+      rcases setRec_cases { s with sess := sess' } uid u _ e j r r1 hr h1 with x | ⟨x, y⟩
+      · rw [x]; exact ⟨rfl, rfl, rfl⟩
+      · rw [x, y]; exact ⟨rfl, rfl, rfl⟩
+
+/-- every operation except a registration keeps, in EVERY record, the fields it has no business with: a login
+rewrites only the clock-dependent rest, a password change only the hash, an e-mail change only the e-mail,
+everything else nothing. -/
+theorem kept_all (rs : List Bytes) (s : State C) (op : Op) (j : Nat) (r r1 : Rec C) (hr : s.recs[j]? = some r)
+    (h1 : (step rs s op).1.recs[j]? = some r1) : Kept op r r1 := by
+  cases op with
+  | register id pw email salt rest => trivial
+  | login id pw rest =>
+    simp only [step] at h1
+    show r1.id = r.id ∧ r1.hash = r.hash ∧ r1.email = r.email
+    unfold login at h1
+    simp only [] at h1
+    have same : s.recs[j]? = some r1 → r1.id = r.id ∧ r1.hash = r.hash ∧ r1.email = r.email := by
+      intro x; rw [hr] at x; cases x; exact ⟨rfl, rfl, rfl⟩
+    split at h1
+    · exact same h1
+    · split at h1
+      · exact same h1
+      · split at h1
+        · exact same h1
+        · cases hq : recOf s (searchUserRaw s (copyInto IDSZ id)) with
+          | none => rw [hq] at h1; exact same h1
+          | some user =>
+            rw [hq] at h1
+            simp only [] at h1
+            split at h1
+            · exact same h1
+            · split at h1
+              · exact userLogin_kept s _ rest j r r1 hr h1
+              · exact userLogin_kept s _ rest j r r1 hr h1
+  | checkPasswd id pw =>
+    simp only [step] at h1
+    show r1 = r
+    have : (checkPasswd s id pw).1 = s := by
+      unfold checkPasswd; simp only []; repeat' split
+      all_goals rfl
+    rw [this, hr] at h1; cases h1; rfl
+  | changePasswd id old new salt =>
+    simp only [step] at h1
+    show r1.id = r.id ∧ r1.email = r.email ∧ r1.rest = r.rest
+    unfold changePasswd at h1
+    simp only [] at h1
+    have same : s.recs[j]? = some r1 → r1.id = r.id ∧ r1.email = r.email ∧ r1.rest = r.rest := by
+      intro x; rw [hr] at x; cases x; exact ⟨rfl, rfl, rfl⟩
+    split at h1
+    · exact same h1
+    · split at h1
+      · exact same h1
+      · split at h1
+        · exact same h1
+        · cases hq : recOf s (searchUserRaw s (copyInto IDSZ id)) with
+          | none => rw [hq] at h1; exact same h1
+          | some user =>
+            rw [hq] at h1
+            simp only [] at h1
+            split at h1
+            · exact same h1
+            · rcases setRec_cases s _ user _ hq j r r1 hr h1 with x | ⟨x, y⟩
+              · rw [x]; exact ⟨rfl, rfl, rfl⟩
+              · rw [x, y]; exact ⟨rfl, rfl, rfl⟩
+  | changeEmail id email =>
+    simp only [step] at h1
+    show r1.id = r.id ∧ r1.hash = r.hash ∧ r1.rest = r.rest
+    unfold changeEmail at h1
+    simp only [] at h1
+    have same : s.recs[j]? = some r1 → r1.id = r.id ∧ r1.hash = r.hash ∧ r1.rest = r.rest := by
+      intro x; rw [hr] at x; cases x; exact ⟨rfl, rfl, rfl⟩
+    split at h1
+    · exact same h1
+    · split at h1
+      · exact same h1
+      · split at h1
+        · exact same h1
+        · cases hq : recOf s (searchUserRaw s (copyInto IDSZ id)) with
+          | none => rw [hq] at h1; exact same h1
+          | some user =>
+            rw [hq] at h1
+            simp only [] at h1
+            rcases setRec_cases s _ user _ hq j r r1 hr h1 with x | ⟨x, y⟩
+            · rw [x]; exact ⟨rfl, rfl, rfl⟩
+            · rw [x, y]; exact ⟨rfl, rfl, rfl⟩
+  | exists_ id =>
+    simp only [step] at h1
+    show r1 = r
+    have : (checkExists s id).1 = s := by
+      unfold checkExists; simp only []; repeat' split
+      all_goals rfl
+    rw [this, hr] at h1; cases h1; rfl
+  | getUser id =>
+    simp only [step] at h1
+    show r1 = r
+    have : (getUser s id).1 = s := by
+      unfold getUser; simp only []; repeat' split
+      all_goals rfl
+    rw [this, hr] at h1; cases h1; rfl
+
+/-! ### the session table is full (known finding) -/
+
+/-- a registration the specification accepts, up to the point where `userLogin` is called: the account has been
+written to the first free slot. -/
+theorem register_setup (L : Lawful C) (S : Sep C pws) (rs : List Bytes) (h : R C pws s t) (id pw email : Bytes)
+    (salt rest : Nat) (hp : pw ∈ pws) (hw : WellFormed id) (hres : ¬ Reserved rs id)
+    (hnone : t.acc (id.map tolower) = none) (hfree : t.free ≠ 0) :
+    ∃ (i : Nat) (n : Rec C), n.id = copyInto IDSZ id ∧ inUse n ∧ foldId n.id = id.map tolower ∧ cstr n.id = id ∧
+      (setRec s (i + 1) n).recs[i]? = some n ∧ searchUserRaw (setRec s (i + 1) n) (copyInto IDSZ id) = i + 1 ∧
+      R C pws (setRec s (i + 1) n)
+        { acc := updAcc t.acc (id.map tolower) ⟨id, pwOf pw, copyInto EMAILSZ email⟩, free := t.free - 1, sess := t.sess } ∧
+      (id.map tolower) ∉ t.sess ∧
+      register rs s id pw email salt rest =
+        (if (userLogin (setRec s (i + 1) n) (i + 1) rest).2 ≠ .none
+          then ((userLogin (setRec s (i + 1) n) (i + 1) rest).1, ⟨(userLogin (setRec s (i + 1) n) (i + 1) rest).2, [[]]⟩)
+          else ((userLogin (setRec s (i + 1) n) (i + 1) rest).1, ⟨.none, [id]⟩)) := by
+  obtain ⟨g1, g2, g3⟩ := (gate_iff rs id).2 ⟨hw, hres⟩
+  have hnz := wellFormed_no_zero hw
+  have hc : cstr id = id := cstr_of_no_zero id hnz
+  have hw' : WellFormed (cstr id) := by rw [hc]; exact hw
+  obtain ⟨hv, hh, hf⟩ := copy_facts hw'
+  have hfold : foldId (copyInto IDSZ id) = id.map tolower := by rw [hf, foldId, hc]
+  have hcs : cstr (copyInto IDSZ id) = id := by rw [cstr_copy_of_wf hw', hc]
+  have hds : doSearchUserRaw s (copyInto IDSZ id) = searchUserRaw s (copyInto IDSZ id) := by
+    unfold searchUserRaw; rw [if_neg hh]
+  let n : Rec C := { id := copyInto IDSZ id, hash := genPasswd C salt pw, email := copyInto EMAILSZ email, rest := rest }
+  have h0 := h.lookup_missing (copyInto IDSZ id) (by rw [hfold]; exact hnone)
+  obtain ⟨i, e, f1, f2, f3, f4⟩ := h.free_search.2 hfree
+  have hval := (uidValid_succ i).2 f2
+  have hs : setupNewUser s n = (setRec s (i + 1) n, .none) := by
+    unfold setupNewUser; simp only [n, hds, h0, f1, hval]; simp
+  have hnew : ∀ (k : Nat) (r : Rec C), s.recs[k]? = some r → foldId (copyInto IDSZ id) ≠ foldId r.id := by
+    have : searchFrom s.recs (copyInto IDSZ id) 0 = 0 := by
+      have := h0; unfold searchUserRaw doSearchUserRaw at this; rwa [if_neg hh] at this
+    exact (searchFrom_zero _ _ _).1 this
+  have hR1 := h.insert (n := n) f3 f4 hv hh hnew (hashRel_gen L S salt pw hp)
+  have hacc : (updAcc t.acc (foldId n.id) ⟨cstr n.id, pwOf pw, n.email⟩) (foldId (copyInto IDSZ id)) =
+      some ⟨cstr n.id, pwOf pw, n.email⟩ := by simp [updAcc, n]
+  obtain ⟨i', r', k1, k2, k3, k4, k5, _⟩ := hR1.lookup_found (copyInto IDSZ id) _ hacc hh
+  have hin : (setRec s (i + 1) n).recs[i]? = some n := by rw [setRec_recs]; exact set_self _ _ _ _ f3
+  have hii : i' = i := hR1.uniq i' i r' n k3 hin k4 k5
+  subst hii
+  rw [hin] at k3; cases k3
+  have hfn : foldId n.id = id.map tolower := hfold
+  have hcn : cstr n.id = id := hcs
+  rw [hfn, hcn] at hR1
+  refine ⟨i', n, rfl, hh, hfn, hcn, hin, k1, hR1, ?_, ?_⟩
+  · intro hm
+    rw [h.sess_eq, List.mem_map] at hm
+    obtain ⟨uid, hu1, hu2⟩ := hm
+    obtain ⟨_, r0, hr0, _⟩ := h.sess_ok uid hu1
+    unfold keyOf at hu2; rw [hr0] at hu2
+    unfold recOf at hr0
+    exact hnew _ r0 hr0 (by rw [hfold]; exact hu2.symm)
+  · unfold register
+    have hs' := hs
+    simp only [n] at hs' k1 hin
+    simp only [g1, g2, g3, Bool.false_eq_true, if_false, hs', k1, hval, recOf_succ, hin, Bool.not_true]
+    simp only [ne_eq, not_true_eq_false, if_false]
+    have : toUUserID (copyInto IDSZ id) = id := by rw [toUUserID_valid hv, hcs]
+    rw [this]
+
+/-- with every session entry taken, a registration that the specification accepts returns ErrNewUtmp — and the
+account exists afterwards. -/
+theorem register_session_full (L : Lawful C) (S : Sep C pws) (rs : List Bytes) (h : R C pws s t) (id pw email : Bytes)
+    (salt rest : Nat) (hp : pw ∈ pws) (hw : WellFormed id) (hres : ¬ Reserved rs id)
+    (hnone : t.acc (id.map tolower) = none) (hfree : t.free ≠ 0) (hfull : ¬ t.sess.length < USHM) :
+    (specStep rs t (.register id pw email salt rest)).2 = ⟨.ok, [id]⟩ ∧
+    (register rs s id pw email salt rest).2 = ⟨.newUtmp, [[]]⟩ ∧
+    searchUserRaw (register rs s id pw email salt rest).1 (copyInto IDSZ id) ≠ 0 ∧
+    (register rs s id pw email salt rest).1.recs ≠ s.recs := by
+  obtain ⟨i, n, e1, e2, e3, e4, e5, e6, e7, e8, e9⟩ := register_setup L S rs h id pw email salt rest hp hw hres hnone hfree
+  have hfullu : utmpEnter (setRec s (i + 1) n).sess (i + 1) = none :=
+    e7.enter_full e5 e2 (by rw [e3]; exact e8) hfull
+  have hul : userLogin (setRec s (i + 1) n) (i + 1) rest = (setRec s (i + 1) n, .newUtmp) := by
+    unfold userLogin; rw [hfullu]
+  refine ⟨?_, ?_, ?_, ?_⟩
+  · unfold specStep
+    simp [hw, hres, hnone, hfree]
+  · rw [e9, hul]; simp
+  · rw [e9, hul]; simp [e6]
+  · rw [e9, hul]
+    simp only [ne_eq, reduceCtorEq, not_false_eq_true, if_true]
+    intro x
+    have h1 : (setRec s (i + 1) n).recs[i]? = s.recs[i]? := by rw [x]
+    rw [e5] at h1
+    -- the slot was free before
+    obtain ⟨a, ha, _⟩ := h.sound i n h1.symm e2
+    rw [e3, hnone] at ha; cases ha
+
+/-- with every session entry taken, the right password of a user who holds no entry is refused with ErrNewUtmp. -/
+theorem login_session_full (rs : List Bytes) (h : R C pws s t) (id pw : Bytes) (rest : Nat) (hp : pw ∈ pws)
+    (hw : WellFormed (cstr id)) (a : Account) (ha : t.acc (foldId id) = some a) (hpw : pwOk a pw)
+    (hk : foldId id ∉ t.sess) (hfull : ¬ t.sess.length < USHM) :
+    (specStep rs t (.login id pw rest)).2 = ⟨.ok, [a.id]⟩ ∧ login s id pw rest = (s, ⟨.newUtmp, [[]]⟩) := by
+  obtain ⟨hv, hh, hf⟩ := copy_facts hw
+  obtain ⟨i, r, h1, h2, h3, h4, h5, h6, h7, h8⟩ := h.lookup_found (copyInto IDSZ id) a (by rw [hf]; exact ha) hh
+  have hval := (uidValid_succ i).2 h2
+  have hchk := (hashRel_check h8 hp).2 hpw
+  have hkk : foldId r.id ∉ t.sess := by rw [h5, hf]; exact hk
+  have hu := h.enter_full h3 h4 hkk hfull
+  constructor
+  · unfold specStep; simp [hw, ha, hpw]
+  · unfold login
+    simp only [hv, hh, h1, hval, recOf_succ, h3, hchk]
+    unfold userLogin
+    rw [hu]; simp
+
+
+/-! ### a start state, the ideal hash -/
+
+def emptyRec (C : Crypto) : Rec C := { id := List.replicate IDSZ 0, hash := C.zero, email := List.replicate EMAILSZ 0, rest := 0 }
+
+/-- a .PASSWDS of MAX_USERS all-zero records, no session. -/
+def emptyState (C : Crypto) : State C := { recs := List.replicate MAX (emptyRec C), sess := [] }
+
+def emptyTable : Table := { acc := fun _ => none, free := MAX, sess := [] }
+
+theorem emptyRec_free (C : Crypto) : ¬ inUse (emptyRec C) := by
+  unfold inUse emptyRec; simp [consts.2.1]
+
+theorem R_empty (C : Crypto) (pws : List Bytes) : R C pws (emptyState C) emptyTable := by
+  have hmem : ∀ (i : Nat) (r : Rec C), (emptyState C).recs[i]? = some r → r = emptyRec C := by
+    intro i r hr
+    have := List.mem_of_getElem? hr
+    exact List.eq_of_mem_replicate this
+  refine ⟨by simp [emptyState], ?_, ?_, ?_, ?_, ?_, rfl, ?_⟩
+  · intro i r hr hu; rw [hmem i r hr] at hu; exact absurd hu (emptyRec_free C)
+  · intro i j ri rj hi _ hu _; rw [hmem i ri hi] at hu; exact absurd hu (emptyRec_free C)
+  · intro i r hr hu; rw [hmem i r hr] at hu; exact absurd hu (emptyRec_free C)
+  · intro k a hk; cases hk
+  · show MAX = _
+    unfold emptyState
+    simp only []
+    rw [List.countP_replicate, if_pos ((isFree_iff _).2 (emptyRec_free C))]
+  · intro uid hm; cases hm
+
+theorem ideal_lawful : Lawful ideal := by
+  refine ⟨?_, ?_, ?_⟩
+  · intro r p _ _; simp [ideal]
+  · intro h p q e; simp [ideal, e]
+  · intro q; simp [ideal]
+
+theorem ideal_sep (pws : List Bytes) : Sep ideal pws := by
+  intro r p q _ _ _ _ hk
+  simp [ideal, hk]
+
 end
+
+theorem agreeAll_get : ∀ (ops : List Op) (as : List Ans) (bs : List SpecAns), AnsAgreeAll ops as bs →
+    ∀ (i : Nat) (o : Op) (a : Ans) (b : SpecAns), ops[i]? = some o → as[i]? = some a → bs[i]? = some b → AnsAgree o a b
+  | [], [], [], _, i, o, _, _, ho, _, _ => by simp at ho
+  | o' :: os, a' :: as, b' :: bs, h, i, o, a, b, ho, ha, hb => by
+    cases i with
+    | zero => simp at ho ha hb; subst ho; subst ha; subst hb; exact h.1
+    | succ i => exact agreeAll_get os as bs h.2 i o a b (by simpa using ho) (by simpa using ha) (by simpa using hb)
+  | [], _ :: _, _, h, _, _, _, _, _, _, _ => by cases h
+  | [], [], _ :: _, h, _, _, _, _, _, _, _ => by cases h
+  | _ :: _, [], _, h, _, _, _, _, _, _, _ => by cases h
+  | _ :: _, _ :: _, [], h, _, _, _, _, _, _, _ => by cases h
+
 
 end PttVerif.C03
